@@ -56,14 +56,17 @@ def body_src(shape, fields):
 def item_src(it, name="T"):
     a = " ".join(["#[serde(" + " ".join(tok_src(t) for t in l) + ")]" for l in it["serde"]] + ["#[ts(" + " ".join(tok_src(t) for t in l) + ")]" for l in it["ts"]])
     g = it.get("_generics", "")
+    wh = it.get("_where", "")          # a where-clause, as written (with or without a trailing comma)
     if not it["is_enum"]:
         b = body_src(it["shape"], it["fields"])
-        return f"{a} struct {name}{g}{b}" + ("" if it["shape"] == "named" else ";")
+        if it["shape"] == "named":
+            return f"{a} struct {name}{g} {wh}{b}"
+        return f"{a} struct {name}{g}{b} {wh};"
     vs = []
     for i, v in enumerate(it["variants"]):
         va = " ".join(["#[serde(" + " ".join(tok_src(t) for t in l) + ")]" for l in v["serde"]] + ["#[ts(" + " ".join(tok_src(t) for t in l) + ")]" for l in v["ts"]])
         vs.append(f"{va} V{i}" + body_src(v["shape"], v["fields"]))
-    return f"{a} enum {name}{g} {{ " + ", ".join(vs) + " }"
+    return f"{a} enum {name}{g} {wh} {{ " + ", ".join(vs) + " }"
 
 
 def strip(it):
@@ -182,6 +185,13 @@ def gen_items(ctx):
                   ("<P: Clone>", [gf("a", "Vec<P>", ("inline",))])]:
         it = {"is_enum": False, "ts": [], "serde": [], "shape": "named", "fields": fs, "variants": [], "_keys": [], "_generics": g}
         items.append((it, "generics"))
+    # where-clauses as written: one or two predicates, with and without a trailing comma, on every kind of item
+    for wh in ("where P: Clone", "where P: Clone,", "where P: Clone, Q: PartialEq", "where P: Clone, Q: PartialEq,", "where Vec<P>: Clone", "where"):
+        for shape, fs in (("named", [gf("a", "P"), gf("b", "Vec<Q>")]), ("tuple", [dict(mk_field(False), _ty="P"), dict(mk_field(False), _ty="Q")])):
+            items.append(({"is_enum": False, "ts": [], "serde": [], "shape": shape, "fields": fs, "variants": [], "_keys": [], "_generics": "<P, Q>", "_where": wh}, "generics"))
+        items.append(({"is_enum": True, "ts": [], "serde": [], "shape": "named", "fields": [], "_keys": [], "_generics": "<P, Q>", "_where": wh,
+                       "variants": [{"shape": "tuple", "ts": [], "serde": [], "fields": [dict(mk_field(False), _ty="P")]},
+                                    {"shape": "named", "ts": [], "serde": [], "fields": [gf("q", "Q")]}]}, "generics"))
     items.append(({"is_enum": True, "ts": [], "serde": [], "shape": "named", "fields": [], "_keys": [], "_generics": "<P, Q>",
                    "variants": [{"shape": "tuple", "ts": [], "serde": [], "fields": [dict(mk_field(False), _ty="P")]},
                                 {"shape": "tuple", "ts": [[I("skip")]], "serde": [], "fields": [dict(mk_field(False), _ty="Q")], "_keys": ["skip"]}]}, "generics"))
